@@ -5,7 +5,6 @@
 
 from __future__ import annotations
 
-import contextlib
 import logging
 from collections.abc import Callable, Iterator
 from io import IOBase
@@ -251,16 +250,22 @@ class StreamSession:
                 return
         _MAX_DRAIN = 10_000
         drained: list[AnnotatedBatch] = []
-        with contextlib.suppress(StopIteration, RpcError, pa.ArrowInvalid, OSError):
+        try:
             for _ in range(_MAX_DRAIN):
                 ab = _read_batch_with_log_check(self._output_reader, self._on_log, self._external_config, shm=self._shm)
                 if ab._release_fn is not None:
                     drained.append(ab)
+        except StopIteration:
+            # Only the end-of-stream marker proves the output was read to its
+            # end.  Any other way out of the loop (a server error batch, a broken
+            # transport, on_log raising one of these classes) leaves bytes unread.
+            self._drained = True
+        except (RpcError, pa.ArrowInvalid, OSError):
+            pass
         # Drained batches never reach the caller: free their shm regions, once
         # the drain is over and the server has finished with the segment.
         for ab in drained:
             ab.release()
-        self._drained = True
 
     def cancel(self) -> None:
         """Signal the server to stop processing and discard pending work.
@@ -297,16 +302,22 @@ class StreamSession:
                 return
         _MAX_DRAIN = 10_000
         drained: list[AnnotatedBatch] = []
-        with contextlib.suppress(StopIteration, RpcError, pa.ArrowInvalid, OSError):
+        try:
             for _ in range(_MAX_DRAIN):
                 ab = _read_batch_with_log_check(self._output_reader, self._on_log, self._external_config, shm=self._shm)
                 if ab._release_fn is not None:
                     drained.append(ab)
+        except StopIteration:
+            # Only the end-of-stream marker proves the output was read to its
+            # end.  Any other way out of the loop (a server error batch, a broken
+            # transport, on_log raising one of these classes) leaves bytes unread.
+            self._drained = True
+        except (RpcError, pa.ArrowInvalid, OSError):
+            pass
         # Drained batches never reach the caller: free their shm regions, once
         # the drain is over and the server has finished with the segment.
         for ab in drained:
             ab.release()
-        self._drained = True
 
     def __enter__(self) -> StreamSession:
         """Enter context manager."""
